@@ -263,7 +263,7 @@ REGISTRY = {
         "harness_timeout": 3000,
         "trusted": [
             "modelled: a job as a network of replicas over bounded FIFO channels (Model/Net.v: blocking send on a full channel, blocking receive on empty wanted channels); the marker-level replica r_sem (counts FlushAndRestart / Terminate per side, broadcasts them in End's order, forwards data batches, reads only the side that has not ended the round); the detailed marker accounting of Start (Model/Start.v) and of the two-input Start's select (Model/BinaryStart.v)",
-            "the marker-level replica is an abstraction of Start + operator chain + End that is read off the code and justified by the operator-level theorems (C04_start_*, C04_binary_*, C02/C05); it is tied to the engine end to end by whole-job runs; the static premise dag_ok of the theorems is checked (dag_okb, inside Coq) on the execution graphs the real scheduler derives for the generated acyclic jobs",
+            "the marker-level replica is an abstraction of Start + operator chain + End that is read off the code and justified by the operator-level theorems (C04_start_*, C04_binary_*, C02/C05); it is tied to the engine end to end by whole-job runs; the static premises of the theorems are checked inside Coq on the execution graphs the real scheduler derives for the generated acyclic jobs (dag_okb on one host; mstruct_okb and the capacity condition mcap_okb on 2..3-host layouts, where a graph that violates only the capacity condition is reported under known finding F13)",
             "covered by theorems: every acyclic job on ONE host unconditionally (channels per (consumer replica, previous block), any fan-in/fan-out, self-joins, any capacity >= 1, any data), and every acyclic MULTI-HOST job (connections multiplexed per block pair and host pair, blocking demultiplexers) provided no side of a two-input block has more producers than its channel holds (mcap_ok; engine: at most 16 producer replicas per input of a join/merge/zip). Without that condition the model has reachable deadlocks (C04_mux_deadlock_in_model, C04_capacity_condition_deadlock); the second shape was reproduced on the engine and is known finding F13 (harness/src/props/muxjoin.rs). NOT covered in general: loops (feedback edges) — instances only (C04_replay_instance_no_deadlock for every routing, C04_iterate_*), Model/Loop.v and C10, whole-job runs",
             "trusted: thread scheduling fairness, flume channels, TCP, JoinHandle::join",
         ],
